@@ -61,16 +61,16 @@ fn enc_name(n: &str) -> Vec<u8> {
 }
 
 #[derive(Clone)]
-struct Rr {
-    name: String,
-    ptr: bool, // encode the owner as a pointer to the question name
-    ty: u16,   // 1 A, 5 CNAME, 28 AAAA, 16 TXT
-    a: [u8; 4],
-    cname: String,
+pub struct Rr {
+    pub name: String,
+    pub ptr: bool, // encode the owner as a pointer to the question name
+    pub ty: u16,   // 1 A, 5 CNAME, 28 AAAA, 16 TXT
+    pub a: [u8; 4],
+    pub cname: String,
 }
 
 #[allow(clippy::too_many_arguments)]
-fn dns_msg(id: u16, flags: u16, qname: &str, qtype: u16, qd: u16, rrs: &[Rr], trunc: Option<usize>, evil_ptr: u8) -> Vec<u8> {
+pub fn dns_msg(id: u16, flags: u16, qname: &str, qtype: u16, qd: u16, rrs: &[Rr], trunc: Option<usize>, evil_ptr: u8) -> Vec<u8> {
     let mut m = vec![];
     m.extend_from_slice(&id.to_be_bytes());
     m.extend_from_slice(&flags.to_be_bytes());
@@ -121,7 +121,7 @@ fn dns_msg(id: u16, flags: u16, qname: &str, qtype: u16, qd: u16, rrs: &[Rr], tr
     m
 }
 
-fn parse_query(p: &[u8]) -> Option<(u16, String, u16)> {
+pub fn parse_query(p: &[u8]) -> Option<(u16, String, u16)> {
     if p.len() < 17 {
         return None;
     }
